@@ -8,7 +8,7 @@ from .c12 import DS
 
 LEVEL = "exploration"
 RULE = ("all label layouts of length 2..L (class-balanced: <=3 classes, every class present; semi: labeled/-1 with both present) x "
-        "samples_per_class None/1..4 x chunk sizes 1..3 x 1..3 x the three length modes x weight vectors over {0,1,3} x sizes x "
+        "samples_per_class None/1..5/7/8/11 (several whole passes plus a partial pass over a class) x chunk sizes 1..3 x 1..3 x the three length modes x weight vectors over {0,1,3} x sizes x "
         "world sizes 1..3 x all ranks; random draws: real seeds {0,1,2} x epochs {0,1}, and for pools <= 4 every answer of every "
         "permutation / multinomial draw (TorchProxy, capped per configuration); oracles: exact per-class counts over all ranks, "
         "even reuse within a class, strict labeled/unlabeled alternation, duplicate-free aligned pool windows, equal rank lengths "
@@ -67,13 +67,15 @@ def check_balanced_streams(lay, spc, W, shuffle, streams, lens, p, case):
 def balanced(lay, tier, p):
     from kappadata.samplers.class_balanced_sampler import ClassBalancedSampler
     ds = DS(lay)
-    for spc in (None, 1, 2, 3, 4):
+    for spc in (None, 1, 2, 3, 4, 5, 7, 8, 11):
         for W in (1, 2, 3):
             for shuffle in (True, False):
                 case = dict(sampler="class_balanced", classes=list(lay), spc=spc, W=W, shuffle=shuffle)
-                seeds = (0, 1, 2) if shuffle else (0,)
+                # several whole passes over a class plus a partial one: more draws, so more real seeds
+                many_passes = (spc or max(lay.count(c) for c in set(lay))) >= 2 * min(lay.count(c) for c in set(lay)) + 1
+                seeds = ((0, 1, 2, 3, 4, 5) if many_passes else (0, 1, 2)) if shuffle else (0,)
                 for seed in seeds:
-                    for epoch in ((0, 1) if shuffle else (0,)):
+                    for epoch in (((0, 1, 2) if many_passes else (0, 1)) if shuffle else (0,)):
                         streams, lens = [], []
                         second = []
                         for r in range(W):
@@ -283,7 +285,9 @@ def run(run):
     L = 5 if run.tier == "quick" else 6
     cb = list(cb_layouts(L))
     se = list(semi_layouts(L))
-    tasks = [("cb", cb[i:i + 12], run.tier) for i in range(0, len(cb), 12)]
+    # strongly imbalanced layouts (auto samples_per_class = several passes over the small class plus a partial pass)
+    cb += [(0,) * a + (1,) * b for a, b in ((3, 8), (3, 11), (4, 11), (7, 20))] + [(0, 1, 2, 1, 0, 1, 1, 0, 1, 1, 2, 1, 2)]
+    tasks = [("cb", cb[i:i + 6], run.tier) for i in range(0, len(cb), 6)]
     tasks += [("semi", se[i:i + 6], run.tier) for i in range(0, len(se), 6)]
     # two large layouts so that 'differently seeded per rank' (pools >= 4, >= 8 draws per rank) is exercised
     big = [(0, 1, 0, 1, -1, -1, -1, -1, 0, 1, -1, -1, 0, -1, 1, -1, 0, 1, 0, -1, -1, 1, -1, -1, 0, 1, -1, -1, 1, 0, -1, -1, 0, 1, -1, -1),
